@@ -10,6 +10,10 @@ from .ops import *
 from . import spec as SPEC
 
 
+class SpecFalse(Exception):
+	"""a clause that refers to something that does not exist (e.g. a missing dict key) does not hold"""
+
+
 class PureEval:
 	def __init__(self, eng, st, entry=False, extra=None, env_override=None, old_heap=None):
 		self.eng, self.st = eng, st
@@ -38,6 +42,8 @@ class PureEval:
 			raise Unsupported(f'contract clause does not parse: {s!r}: {e}')
 		try:
 			return self.ev(node)
+		except SpecFalse:
+			return False
 		except Unsupported as e:
 			raise Unsupported(f'in clause {s!r}: {e}')
 
@@ -131,8 +137,21 @@ class PureEval:
 		return v
 
 	def p_Compare(self, node):
-		if len(node.ops) == 1 and isinstance(node.ops[0], (ast.Is, ast.IsNot)) and isinstance(node.left, ast.Name) and isinstance(node.comparators[0], ast.Name):
-			a, b = self.lookup(node.left.id), self.lookup(node.comparators[0].id)
+		if len(node.ops) == 1 and isinstance(node.ops[0], (ast.Is, ast.IsNot)):
+			def raw(n):
+				# operand of `is` without dereferencing (object identity)
+				if isinstance(n, ast.Name):
+					return self.lookup(n.id)
+				if isinstance(n, ast.Attribute):
+					o = self.deref(raw(n.value))
+					if isinstance(o, Record) and n.attr in o.fields:
+						return o.fields[n.attr]
+				if isinstance(n, ast.Subscript) and isinstance(n.slice, ast.Constant):
+					o = self.deref(raw(n.value))
+					if isinstance(o, dict) and n.slice.value in o:
+						return o[n.slice.value]
+				return None
+			a, b = raw(node.left), raw(node.comparators[0])
 			if isinstance(a, Ref) and isinstance(b, Ref):
 				r = a.addr == b.addr        # object identity of two heap objects
 				return r if isinstance(node.ops[0], ast.Is) else (not r)
@@ -213,6 +232,13 @@ class PureEval:
 			for k in reversed(range(len(obj))):
 				r = obj[k] if r is None else ite_values(idx.term == k, obj[k], r)
 			return r
+		if isinstance(obj, dict) and not is_sym(idx) and not isinstance(idx, Ref) and idx in obj:
+			v = obj[idx]
+			if isinstance(v, Ref) and isinstance(self.deref(v), Record):
+				return v
+			return self.deref(v) if not isinstance(v, Ref) or not isinstance(self.deref(v), (SSeq, list)) else v
+		if isinstance(obj, dict) and obj and not is_sym(idx) and not isinstance(idx, Ref) and idx not in obj:
+			raise SpecFalse(f'key {idx!r} is missing')
 		if isinstance(obj, dict) and not obj:
 			# no key exists: the value is arbitrary (an obligation about it is proved for every value)
 			return SInt(z3.Int(fresh_name('nokey')))
